@@ -119,6 +119,8 @@ func runC07(r *Run) {
 	r.Floor("C07.R4", 1)
 	r.Floor("C07.R5", 2)
 	r.Floor("C07.R6", 1)
+	r.Floor("C07.R8", 2)
+	r.RuleDoc("C07.R8", "the replica-set controller writes the replica set's status only by Status().Update of a copy of the object it read (a user's Canary-Failed mark is never overwritten silently)")
 	r.RuleDoc("C07.R5", "the Canary-Failed verdict is reset to False only for the replica set that has become active; the canary strategy writes it from IsFailed")
 	r.RuleDoc("C07.R6", "a failed canary is never promoted by elapsed time: status.activeReplicaSet stays unchanged")
 	r.NotCovered("recovery from every crash point as a history property (only the write order, the guard and the recomputation inputs are decided); that the active replica set repopulates the former canary nodes (follows from C04.R2 once status.canary is nil); wall-clock arithmetic beyond the retention constant; the validated-and-failed corner (the decision then returns the up-to-date replica set itself, whose template is already the spec's)")
@@ -128,6 +130,7 @@ func runC07(r *Run) {
 		return
 	}
 	c07FailedNotPromoted(r, site)
+	c07StatusWriteIsConditional(r)
 	failedConditionWrites(r, "C07.R5")
 	_, reach := edsReconcile(r)
 	c := &c07Ctx{r: r, site: site, reach: reach}
@@ -1203,4 +1206,111 @@ func c07FailedNotPromoted(r *Run, site *decisionSite) {
 	if n == 0 {
 		o.Trivial = true
 	}
+}
+
+// c07StatusWriteIsConditional implements R8: the failure mark lives in the replica set's status
+// and is also written by the user (kubectl eds canary fail). The replica-set controller therefore
+// writes that status only with optimistic concurrency: every write of an
+// ExtendedDaemonSetReplicaSet reachable from its Reconcile is Status().Update (never Patch / a merge
+// patch, which carries no resourceVersion and replaces status.conditions wholesale, and never a
+// plain Update, which ignores the status) of a copy of the replica set object it was handed (the
+// one read at the start of this reconcile, carrying the resourceVersion that was read).
+func c07StatusWriteIsConditional(r *Run) {
+	rec := r.Prog.Method(pkgERS, "Reconciler", "Reconcile")
+	if rec == nil {
+		r.Fatal("anchor (%s.Reconciler).Reconcile not found", pkgERS)
+		return
+	}
+	n := 0
+	for _, e := range effectsOf(r.Prog.reachableFuncs(rec)) {
+		if !isWriteVerb(e.Verb) || shortKind(e.Kind) != "ExtendedDaemonSetReplicaSet" {
+			continue
+		}
+		n++
+		pos := r.Prog.Pos(e.Call.Pos())
+		okVerb := e.Status && e.Verb == "Update"
+		detail := ""
+		if !okVerb {
+			detail = "the replica set is written with " + e.String() + ": no conflict detection against a concurrent status write (or the status is not written at all)"
+		}
+		r.Check("C07.R8", "replica-set status write is Status().Update", pos, shortFunc(e.Fn),
+			"the replica-set controller writes the replica set only through Status().Update, which fails on a concurrent change instead of overwriting a user's Canary-Failed mark", okVerb, detail)
+		// the written object is (a copy of) the replica set handed to the function, i.e. the one read in this reconcile
+		obj := stripConv(e.Obj)
+		src := obj
+		if cp, isC := obj.(*ssa.Call); isC && strings.HasSuffix(calleeName(&cp.Call), ".DeepCopy") && len(cp.Call.Args) == 1 {
+			src = stripConv(cp.Call.Args[0])
+		}
+		okObj := false
+		for _, s := range argSources(r.Prog, src, 0) {
+			// the object fetched by Get in this reconcile: a local allocation passed to client.Get, or the result of the function doing so
+			if c07IsFetched(r, s, 0) {
+				okObj = true
+			} else {
+				okObj = false
+				break
+			}
+		}
+		d2 := ""
+		if !okObj {
+			d2 = "the written object is " + describeVal(obj) + ", not a copy of the replica set read by this reconcile (its resourceVersion is what makes the write conditional)"
+		}
+		r.Check("C07.R8", "replica-set status write uses the object that was read", pos, shortFunc(e.Fn),
+			"the object handed to Status().Update is a copy of the replica set read at the start of the reconcile", okObj, d2)
+	}
+	if n == 0 {
+		r.Check("C07.R8", "replica-set status write", "-", "-", "the replica-set controller persists the replica set's status", false, "no write of an ExtendedDaemonSetReplicaSet found")
+	}
+}
+
+// c07IsFetched: v is an object filled by client.Get — the allocation handed to Get, or the result
+// of a repository function all of whose non-nil returns are such an allocation.
+func c07IsFetched(r *Run, v ssa.Value, depth int) bool {
+	v = stripConv(v)
+	if depth > 3 {
+		return false
+	}
+	switch x := v.(type) {
+	case *ssa.Alloc:
+		for _, rf := range refs(x) {
+			mi, isMI := rf.(*ssa.MakeInterface)
+			if !isMI {
+				continue
+			}
+			for _, rf2 := range refs(mi) {
+				if ci, isCall := rf2.(ssa.CallInstruction); isCall {
+					if e := clientEffect(ci.Parent(), ci); e != nil && e.Verb == "Get" {
+						return true
+					}
+				}
+			}
+		}
+		return false
+	case *ssa.Call, *ssa.Extract:
+		outs := r.Prog.stepOut(v)
+		n := 0
+		for _, o := range outs {
+			if isNilConst(stripConv(o)) {
+				continue
+			}
+			n++
+			if !c07IsFetched(r, o, depth+1) {
+				return false
+			}
+		}
+		return n > 0
+	case *ssa.Phi:
+		n := 0
+		for _, e := range x.Edges {
+			if isNilConst(stripConv(e)) {
+				continue
+			}
+			n++
+			if !c07IsFetched(r, e, depth+1) {
+				return false
+			}
+		}
+		return n > 0
+	}
+	return false
 }
